@@ -4,7 +4,8 @@
 #include <stddef.h>
 #include <stdlib.h>
 #include <string.h>
-#include <dirent.h>
+/* glibc x86-64 layout of struct dirent (the unit under test accesses d_name through this layout) */
+struct dirent { uint64_t d_ino; int64_t d_off; uint16_t d_reclen; uint8_t d_type; char d_name[256]; };
 #ifndef VF_FS_NODES
 #define VF_FS_NODES 6
 #endif
@@ -47,6 +48,7 @@ uint32_t vf_fs_size(uint32_t node){ return (uint32_t)vf_nodes[node].size; }
 uint32_t vf_fs_byte(uint32_t node, uint32_t i){ return vf_nodes[node].data[i]; }
 uint32_t vf_fs_kind(uint32_t node){ return (uint32_t)vf_nodes[node].kind; }
 uint32_t vf_fs_cwd(void){ return (uint32_t)vf_cwd; }
+void *vf_fs_root(void){ return ""; }   /* absolute paths start at the model's root */
 uint64_t vf_fs_open_handles(void){ return (uint64_t)(vf_open_streams + vf_open_dirs); }
 
 static int child(int dir, const char *s, int n){
